@@ -12,7 +12,7 @@ LEVEL = "proof"
 def run(chk, replay=None):
     # bulk: a reservoir of >= MaxTxnEvents/2 transaction events whose payload is split in two and keeps failing
     nbulk = 1 if chk.tier == "quick" else 8
-    proccheck.run(chk, "PropC02", {'failures': 5, 'mixed': 3, 'all_ok': 1}, 140, 3000, [101, 201, 202], replay=replay,
+    proccheck.run(chk, "PropC02", {'failures': 5, 'mixed': 3, 'all_ok': 1}, 140, 3000, [101, 201, 202, 203], replay=replay,
                   extra_histories=lambda rng: procgen.gen_histories(rng, 1, {"bulkfail": 1}) +
                   procgen.gen_histories(rng, nbulk - 1, {"bulk": 1, "bulkfail": 1}))
     statuscheck.run_stage(chk)
